@@ -338,9 +338,51 @@ func genHooksDirected(rng *vlib.Rand, id int) Scenario {
 	return sc
 }
 
+// genHookPark: template HP (see hrun.runPark).
+func genHookPark(rng *vlib.Rand, id int) Scenario {
+	sc := Scenario{ID: id, Class: "hooks", Delay: Delay{Mode: "hook-park"}}
+	switch x := rng.Intn(100); {
+	case x < 60:
+		sc.Backend, sc.Shadow = "hashmap", rng.Bool()
+	case x < 80:
+		sc.Backend = "injected"
+	default:
+		sc.Backend = "bbolt"
+	}
+	const nk = 4
+	ws := WriterSpec{ID: 0, Iface: allPriv()}
+	for n := 0; n < nk; n++ {
+		ws.Ops = append(ws.Ops, OpSpec{Kind: "put", Dir: "a/", N: n, Score: genScore(rng), Tag: vlib.Pick(rng, tags...)})
+	}
+	sc.Writers = []WriterSpec{ws}
+	sc.Hooks = append(sc.Hooks, HookSpec{ID: 0, Prefix: "", PreGet: true, PostGet: true, PrePut: true, ShareWith: -1, CancelAt: -2})
+	nt := rng.Range(2, 5)
+	for i := 1; i <= nt; i++ {
+		hs := HookSpec{ID: i, Prefix: vlib.Pick(rng, "", "a/"), PreGet: true, PostGet: true, PrePut: true, ShareWith: -1, CancelAt: -2}
+		if rng.Chance(20, 100) {
+			hs.PreGet, hs.PostGet, hs.PrePut = rng.Bool(), true, rng.Bool()
+		}
+		sc.Hooks = append(sc.Hooks, hs)
+	}
+	p := &PlanSpec{Template: "HP"}
+	targets := make([]int, nt)
+	for i := range targets {
+		targets[i] = i + 1
+	}
+	vlib.Shuffle(rng, targets)
+	for _, t := range targets {
+		p.HPRounds = append(p.HPRounds, HPRound{Phase: vlib.Pick(rng, "preget", "postget", "preput", "preput"), Target: t, N: rng.Intn(nk)})
+	}
+	sc.Plan = p
+	return sc
+}
+
 func genHooks(rng *vlib.Rand, id int) Scenario {
-	if rng.Chance(25, 100) {
+	switch x := rng.Intn(100); {
+	case x < 25:
 		return genHooksDirected(rng, id)
+	case x < 45:
+		return genHookPark(rng, id)
 	}
 	sc := Scenario{ID: id, Class: "hooks", Delay: Delay{Mode: "idle"}}
 	if rng.Chance(60, 100) {
